@@ -161,8 +161,8 @@ def leg_g(ctx, module, cfg, tag, outfile, workers=4, timeout=1800):
     return path, n
 
 
-_VIOL = re.compile(r'^<<"VIOL",\s*(\d+),\s*\{(.*)\}\s*>>$')
-_DRIFT = re.compile(r'^<<"DRIFT",\s*(\d+),\s*\{(.*)\}\s*>>$')
+_VIOL = re.compile(r'<<\s*"VIOL",\s*(\d+),\s*\{(.*?)\}\s*>>', re.S)
+_DRIFT = re.compile(r'<<\s*"DRIFT",\s*(\d+),\s*\{(.*?)\}\s*>>', re.S)
 
 
 def leg_v(ctx, module, cfg, tracefile, strip=("conc", "marker", "stray", "panic"), timeout=1800, label="V"):
@@ -182,30 +182,10 @@ def leg_v(ctx, module, cfg, tracefile, strip=("conc", "marker", "stray", "panic"
     if n == 0:
         raise Machinery("Leg V %s: empty trace %s" % (module, tracefile))
     rc, out = tlc(ctx, module, cfg, workers=1, timeout=timeout, env={"VERIF_TRACE": lean}, tag=label)
-    viols, drifts = [], []
-    # TLC pretty-prints a long PrintT value over several lines: join continuation lines first
-    joined, cur = [], None
-    for line in out.splitlines():
-        if cur is not None:
-            cur += " " + line.strip()
-            if line.rstrip().endswith(">>"):
-                joined.append(cur)
-                cur = None
-            continue
-        if (line.startswith('<<"VIOL",') or line.startswith('<<"DRIFT",')) and not line.rstrip().endswith(">>"):
-            cur = line.rstrip()
-            continue
-        joined.append(line)
-    if cur is not None:
-        joined.append(cur)
-    for line in joined:
-        m = _VIOL.match(line)
-        if m:
-            viols.append((int(m.group(1)), re.findall(r'"([^"]+)"', m.group(2))))
-            continue
-        m = _DRIFT.match(line)
-        if m:
-            drifts.append((int(m.group(1)), re.findall(r'"([^"]+)"', m.group(2))))
+    # TLC pretty-prints a long PrintT value over several lines (and then with spaces inside << >>):
+    # match over the whole output, whatever the layout
+    viols = [(int(m.group(1)), re.findall(r'"([^"]+)"', m.group(2))) for m in _VIOL.finditer(out)]
+    drifts = [(int(m.group(1)), re.findall(r'"([^"]+)"', m.group(2))) for m in _DRIFT.finditer(out)]
     if "Model checking completed. No error has been found." not in out:
         raise Machinery("Leg V %s/%s: trace not consumed to the end (rc=%d):\n%s" % (module, cfg, rc, tail_err(out)))
     # de-duplicate (TLC may evaluate an action twice)
